@@ -167,6 +167,50 @@ def judge_iter(data: bytes, cfg: dict):
     return out, r
 
 
+CONSUME_OPS = ("read", "next", "for1", "forall")
+
+
+def judge_program(data: bytes, cfg: dict, program, sk="bytesio"):
+    """One reader over one stream used through a PROGRAM of consumption operations - read(), next(reader), a for
+    statement left after one item (for1), a for statement run to its end (forall) - then drained with a last for
+    statement.  Over the whole session the raw items must be consecutive, non-overlapping slices in stream order."""
+    from pyubx2 import UBXReader
+    st = streams.STREAM_KINDS[sk](data)
+    out, items = [], []
+    try:
+        rd = UBXReader(st, **streams.cfg_kwargs(cfg, (lambda e: None) if cfg.get("handler") else None))
+        for op in list(program) + ["forall"]:
+            if len(items) > len(data) + 8:
+                out.append(("no_termination|consumption_program", f"program={list(program)}"))
+                break
+            if op == "read":
+                raw, parsed = rd.read()
+                if raw is not None:
+                    items.append(raw)
+            elif op == "next":
+                try:
+                    raw, parsed = next(rd)
+                    items.append(raw)
+                except StopIteration:
+                    pass
+            else:
+                for raw, parsed in rd:
+                    items.append(raw)
+                    if op == "for1" or len(items) > len(data) + 8:
+                        break
+    except Exception:  # noqa: BLE001  (judged by C08)
+        return out, items
+    pos = 0
+    for raw in items:
+        i = data.find(raw, pos)
+        if i < 0:
+            where = "reordered_or_delivered_twice" if data.find(raw) >= 0 else "not_a_slice"
+            out.append((f"raw_{where}|consumption_program", f"raw={raw.hex()[:60]} after={pos} program={list(program)}"))
+            break
+        pos = i + len(raw)
+    return out, items
+
+
 SOCK_UNIT = ("Uinf", "Remb", "N1", "Uack", "UinfBad", "R1")
 
 
@@ -181,6 +225,8 @@ def replay_case(case):
         a = engine.Acc()
         eval_block(("sessions", case["a"]), a)
         return [(k, v[2]) for k, v in a.viol.items()]
+    if case.get("program") is not None:
+        return judge_program(bytes.fromhex(case["stream"]), case["cfg"], case["program"], case.get("sk", "bytesio"))[0]
     if case.get("iter"):
         return judge_iter(bytes.fromhex(case["stream"]), case["cfg"])[0]
     if "pause" in case:
@@ -252,6 +298,25 @@ def eval_block(block, acc):
                             acc.outcomes[(len(r.items), ("variants",))] += 1
                             for key, detail in out:
                                 acc.violation(key, {"iter": True, "stream": data.hex(), "cfg": cfg}, detail)
+        return
+    elif kind == "programs":
+        # every program of <= 3 consumption operations (read / next / for left after one item / for run out),
+        # then a draining for statement, over 5-token streams x stream kinds
+        import itertools
+        first = block[1]
+        for rest in (("N1", "Uack", "R1", "Uinf"), ("nabc", "Uack", "fb562", "N1"), ("Ubad", "N1", "Uack", "Uack")):
+            seq = (first,) + rest
+            data = streams.seq_bytes(seq)
+            for sk in ("bytesio", "buffered", "nonseekable"):
+                for cfg in COVER[:2]:
+                    for n in (0, 1, 2, 3):
+                        for program in itertools.product(CONSUME_OPS, repeat=n):
+                            out, items = judge_program(data, cfg, program, sk)
+                            acc.evaluations += 1
+                            acc.transitions += len(program) + 1
+                            acc.outcomes[(len(items), ("program-" + sk,))] += 1
+                            for key, detail in out:
+                                acc.violation(key + (f"|stream={sk}" if sk != "bytesio" else ""), {"program": list(program), "stream": data.hex(), "cfg": cfg, "sk": sk}, detail)
         return
     elif kind == "pause":
         first = block[1]
@@ -385,6 +450,7 @@ def run_tier(tier, t0):
     blocks += [("kinds", f) for f in streams.FRAME_TOKENS]
     blocks += [("pause", f) for f in streams.FRAME_TOKENS]
     blocks += [("variants", i, 8) for i in range(8)]
+    blocks += [("programs", f) for f in streams.FRAME_TOKENS]
     blocks += [("socklong", i) for i in range(16)]
     acc = engine.sweep(blocks, eval_block)
     engine.finish(
@@ -394,6 +460,7 @@ def run_tier(tier, t0):
             f"length<={L_cover} x 6 covering configurations"
             + (f", length<={L_def} x default configuration" if L_def else "")
             + f"; all token sequences of length<={k} over {len(alphabet)} tokens (frames, noise, preamble fragments) x 6 configurations. "
+            "Consumption programs: every program of <= 3 operations from {read(), next(reader), for statement left after one item, for statement run out} followed by a draining for statement, 19 first tokens x 3 five-token streams x {BytesIO, BufferedReader, non-seekable} x 2 configurations (raw items consecutive slices over the whole session). "
             "distinct_nontrivial = distinct (number of items, set of protocols delivered) outcome classes"
         ),
         assumptions=[
